@@ -43,10 +43,10 @@ def Env.ascii : Env where
   floatRepr := id
 
 def isAscii (c : Char) : Bool := c.toNat < 128
-def isUpper (c : Char) : Bool := 'A' ≤ c && c ≤ 'Z'
-def isLower (c : Char) : Bool := 'a' ≤ c && c ≤ 'z'
+def isUpper (c : Char) : Bool := decide (65 ≤ c.toNat) && decide (c.toNat ≤ 90)     -- 'A'..'Z'
+def isLower (c : Char) : Bool := decide (97 ≤ c.toNat) && decide (c.toNat ≤ 122)    -- 'a'..'z'
 def isAlphaA (c : Char) : Bool := isUpper c || isLower c
-def isDigitA (c : Char) : Bool := '0' ≤ c && c ≤ '9'
+def isDigitA (c : Char) : Bool := decide (48 ≤ c.toNat) && decide (c.toNat ≤ 57)    -- '0'..'9'
 def isAlnumA (c : Char) : Bool := isAlphaA c || isDigitA c
 
 /-- OPERATOR_CHARS of lexer.py. -/
